@@ -209,6 +209,38 @@ def o_missing(rec: Recorder, case, soft=False):
         if ctx.dummy_verify() is not False or counter.calls != 1:
             rec.fail("C18/dummy-verify", "dummy_verify() is not False or does not perform exactly one verification", "missing_hash", case, counter.calls, 1, soft=soft)
             return
+    # the policy of a context that has already answered for a missing hash is changed: it keeps answering False, under the new policy
+    reconf = case.get("reconf")
+    if not reconf:
+        return
+    others = [n for n in names if n != counter.name]
+    real = [n for n in others if n not in ("unix_disabled", "django_disabled")]
+    if reconf == "load-replace":
+        st, r = call(ctx.load, {"schemes": others})
+    elif reconf == "load-other":
+        st, r = call(ctx.load, {"schemes": ["md5_crypt", "hex_md5"]})
+    elif reconf == "update-schemes":
+        st, r = call(ctx.update, schemes=others)
+    elif reconf == "load-string":
+        from passlib.context import CryptContext
+
+        st, r = call(ctx.load, CryptContext(schemes=others).to_string())
+    else:
+        st, r = call(ctx.update, default=real[-1]) if real else ("skip", None)
+    if st == "skip":
+        return
+    if st == "err":
+        rec.fail(f"C18/reconfigure-raises/{reconf}", "changing the policy of a context raises", "missing_hash", case, repr(r), None, soft=soft)
+        return
+    removed = counter.name not in ctx.schemes()
+    counter.calls = 0
+    for label, fn, want in (("verify", lambda: ctx.verify("pw", None), False), ("verify_and_update", lambda: ctx.verify_and_update("pw", None), (False, None)), ("dummy_verify", ctx.dummy_verify, False)):
+        st, r = call(fn)
+        if st == "err" or r != want:
+            rec.fail(f"C18/missing-hash-after-reconfigure/{label}", f"{label}() against a missing hash after the context's policy was changed ({reconf}) is not {want!r}", "missing_hash", case, repr(r), repr(want), soft=soft)
+            return
+    if removed and counter.calls:
+        rec.fail("C18/dummy-verify-under-old-policy", "after the policy change the dummy verification still runs the removed default scheme", "missing_hash", case, counter.calls, 0, soft=soft)
 
 
 # ---- machine ---------------------------------------------------------------------------------------
@@ -332,11 +364,12 @@ def t_missing(rec, seed, tier):
     from hypothesis import strategies as st
 
     n = {"quick": 60, "thorough": 600}[tier]
-    cases = st.fixed_dictionaries({"spec": _specs(), "password": st.sampled_from(["pw", "x" * 100, "pässword"])})
+    cases = st.fixed_dictionaries({"spec": _specs(), "password": st.sampled_from(["pw", "x" * 100, "pässword"]),
+                                   "reconf": st.sampled_from([None, "load-replace", "load-other", "update-schemes", "load-string", "update-default"])})
 
     def body(case):
         rec.ev()
-        rec.nt("missing", tuple(case["spec"]["schemes"]), case["spec"]["disabled"], case["password"])
+        rec.nt("missing", tuple(case["spec"]["schemes"]), case["spec"]["disabled"], case["password"], case["reconf"])
         rec.sample("missing-hash", case)
         o_missing(rec, case)
 
